@@ -213,6 +213,11 @@ func BuildScenario(seed int64, pow bool) (*Scenario, error) {
 			addrs := make([]string, len(chains))
 			for i := range chains {
 				addrs[i] = r.Bech32()
+				if chains[i] == nameB {
+					// every relayer uses the same account on chain B (an operator running several relayers): the
+					// acknowledgement fee then has more than one candidate recipient on this chain
+					addrs[i] = w.Relayers[0].Bech32()
+				}
 			}
 			out = append(out, clienttypes.IdentifiedRelayer{Address: r.Bech32(), Chains: chains, Addresses: addrs})
 		}
@@ -460,8 +465,8 @@ func BuildScenario(seed int64, pow bool) (*Scenario, error) {
 			sc.cover("msg:/xibc.core.packet.v1.MsgAcknowledgement")
 		}
 	}
-	p1 := send(pkt.SendSpec{Src: a, Dst: b, User: u0, Token: tA, Amount: big.NewInt(5000 + int64(sc.rng.Intn(1000))), Receiver: recv, FeeToken: tA, FeeAmount: big.NewInt(int64(sc.rng.Intn(20)))}, "A->B erc20")
-	p2 := send(pkt.SendSpec{Src: a, Dst: b, User: u0, Token: tA, Amount: big.NewInt(70), Receiver: recv, Call: s.CallTo(b, "reverter")}, "A->B failing call")
+	p1 := send(pkt.SendSpec{Src: a, Dst: b, User: u0, Token: tA, Amount: big.NewInt(5000 + int64(sc.rng.Intn(1000))), Receiver: recv, FeeToken: tA, FeeAmount: big.NewInt(int64(1 + sc.rng.Intn(20)))}, "A->B erc20")
+	p2 := send(pkt.SendSpec{Src: a, Dst: b, User: u0, Token: tA, Amount: big.NewInt(70), Receiver: recv, Call: s.CallTo(b, "reverter"), FeeToken: tA, FeeAmount: big.NewInt(int64(1 + sc.rng.Intn(9)))}, "A->B failing call")
 	relay(p1, "A->B erc20")
 	sc.noise()
 	relay(p2, "A->B failing call")
